@@ -76,30 +76,30 @@ def main():
         shutil.rmtree(wt, ignore_errors=True)
     ok = meta["demo_fails_with_change"] and meta["demo_passes_without_change"] and (skip_suite or meta["suite_passes_with_change"])
     meta["confirmed"] = bool(ok)
-    # run the checks against the change
-    st, _ = sh("git -C /repo status --porcelain")
-    if _.strip():
-        print("/repo is not clean; refusing to apply")
-        return 2
+    # run the checks against the change: in a second scratch worktree (SVERIF_REPO), so that /repo itself is never
+    # left modified while other work (or a sandbox snapshot) is going on; equivalent to apply / run / checkout in /repo
     fired = {}
-    rc, out = sh("git -C /repo apply %s" % patch)
+    wt2 = tempfile.mkdtemp(prefix="seedchk_")
+    os.rmdir(wt2)
+    rc, out = sh("git -C /repo worktree add -q --detach %s HEAD && git -C %s apply %s" % (wt2, wt2, patch))
     try:
         if rc == 0:
             man = json.load(open(os.path.join(VERIF, "MANIFEST.json")))
             for c in man["checks"]:
                 p = c["property_id"]
-                rc2, o = sh("%s -m sverif %s --tier quick --no-write" % (PY, p), cwd=VERIF)
+                rc2, o = sh("%s -m sverif %s --tier quick --no-write --repo %s" % (PY, p, wt2), cwd=VERIF)
                 if rc2 != 0:
                     lines = [l.strip() for l in o.splitlines() if l.strip().startswith(("violation:", "ANALYSIS-ERROR", "inconclusive:"))]
                     fired[p] = {"exit": rc2, "reports": lines[:6]}
     finally:
-        sh("git -C /repo checkout -- .")
+        sh("git -C /repo worktree remove --force %s" % wt2)
+        shutil.rmtree(wt2, ignore_errors=True)
     meta["checks_fired"] = fired
     meta["detected_by_own_property"] = pid in fired and fired[pid]["exit"] == 1
     meta["detected_by_any"] = any(v["exit"] == 1 for v in fired.values())
     meta["what_ran"] = ["git worktree add <scratch> HEAD; git apply patch.diff", "demo with change (must fail)",
                         "pytest sempler/test -n 8 with change (must report 104 passed)", "git checkout -- . ; demo without change (must pass)",
-                        "git -C /repo apply patch.diff ; every quick check ; git -C /repo checkout -- ."]
+                        "scratch worktree of /repo HEAD + git apply patch.diff ; every quick check with --repo <scratch> ; worktree removed"]
     notes = os.path.join(src, "notes.md")
     if os.path.exists(notes):
         meta["needs_to_manifest"] = open(notes).read()[:3000]
